@@ -125,9 +125,8 @@ class Statement(object):
                 self.comment = data.group("comment")
                 raise ParseError("[{}] invalid mnemonic".format(self.mnemonic), line)
             if self.instruction.is_string_define:
-                original_operand = data.group("operands")
-                if data.group("comment"):
-                    original_operand = "{} {}".format(data.group("operands"), data.group("comment").strip())
+                # the string is taken from the line as it was written: the operand pattern stops at blanks and ';'
+                original_operand = line[data.start("operands"):].rstrip()
                 if not original_operand:
                     raise ParseError("[{}] requires a delimited string".format(self.mnemonic), line)
                 starting_symbol = original_operand[0]
@@ -140,7 +139,7 @@ class Statement(object):
                 except (OperandTypeError, ValueTypeError) as error:
                     raise ParseError(str(error), line)
                 self.original_operand = copy(self.operand)
-                self.comment = original_operand[ending_location + 2:].strip() or ""
+                self.comment = original_operand[ending_location + 1:].strip().lstrip(";").strip()
                 self.is_empty = False
             else:
                 try:
